@@ -1,14 +1,14 @@
-(* C29 obligation: Le(a,b) is the negation of Lt(b,a): all exact reals / +-oo; palette pairs with
-   doubles outside the guard classes (inexact conversion of an exact operand, infinite double
-   against the symbolic infinity: see C29_Lt_correct_refuted / C29_Le_correct_refuted). *)
-From SE Require Import Num.NumModel Num.NumPalette Num.NumC29 Num.NumC29P.
+(* C29 obligation: Le(a,b) is the negation of Lt(b,a) for all real numbers of all kinds and values
+   outside lt_guard (refutations: C29_Lt_correct_refuted / C29_Le_correct_refuted). *)
+From SE Require Import Num.NumModel Num.NumC29 Num.NumC29F.
+Theorem C29_Le_not_Lt_guarded :
+  forall a b x y, num_wf a = true -> num_wf b = true -> val a = Some x -> val b = Some y ->
+  lt_guard a b = false ->
+  exists t, rel_lt b a = Ok (Some t) /\ rel_le a b = Ok (Some (negb t)).
+Proof. exact Le_not_Lt_guarded. Qed.
+Print Assumptions C29_Le_not_Lt_guarded.
 Theorem C29_Le_not_Lt_exact :
   forall a b x y, xreal a = true -> xreal b = true -> val a = Some x -> val b = Some y ->
   exists t, rel_lt b a = Ok (Some t) /\ rel_le a b = Ok (Some (negb t)).
 Proof. exact Le_not_Lt_exact. Qed.
 Print Assumptions C29_Le_not_Lt_exact.
-Theorem C29_Le_not_Lt_palette_guarded :
-  forall a b, In a real_palette -> In b real_palette -> le_guard a b = false ->
-  exists t, rel_lt b a = Ok (Some t) /\ rel_le a b = Ok (Some (negb t)).
-Proof. exact Le_not_Lt_palette_guarded. Qed.
-Print Assumptions C29_Le_not_Lt_palette_guarded.
